@@ -776,15 +776,8 @@ int _vnacal_new_add_common(vnacal_new_add_arguments_t vnaa)
     }
 
     /*
-     * Construct the vnacal_new_measurement_t S matrix.
+     * Construct the vnacal_new_measurement_t S matrix (allocated above).
      */
-    if ((vnmp->vnm_s_matrix = full_s_matrix =
-		calloc(full_s_rows * full_s_columns,
-		    sizeof(vnacal_new_parameter_t *))) == NULL) {
-	_vnacal_error(vcp, VNAERR_SYSTEM,
-		"calloc: %s", strerror(errno));
-	goto out;
-    }
     for (int s_cell = 0; s_cell < s_cells; ++s_cell) {
 	if ((full_s_matrix[s_cell_map[s_cell]] =
 		    _vnacal_new_get_parameter(function, vnp,
